@@ -385,6 +385,10 @@ def run(ctx):
     tests = {"value_equal_checked": 0, "diagram_checked": 0}
 
     def add(expr, stream, gen=None):
+        if stream != "boundary" and sympy.sympify(expr).has(sympy.zoo, sympy.nan, sympy.oo, -sympy.oo):
+            # a generated sub-expression evaluated to 1/0 or similar: infinities inside deep trees are outside the modelled domain
+            hist[(stream, "skipped-infinite-subexpression")] = hist.get((stream, "skipped-infinite-subexpression"), 0) + 1
+            return
         try:
             lit = sexpr_lit(expr)
         except (qx.Unsupported, Exception):  # pylint: disable=broad-except
